@@ -31,6 +31,21 @@ Theorem C08_eof_propagates : forall c, In c (configs_full ++ configs_opts) -> eo
 Proof. exact eof_propagates_all. Qed.
 Print Assumptions C08_eof_propagates.
 
+(* KNOWN FINDING F9.  The theorems above are about launches that do not overlap a launch on another thread: every
+   configuration of the sweep has c_inflight = false.  When another thread is between creating its pipes and
+   dropping their child ends, those ends are inheritable and the child forked meanwhile holds them: with
+   c_inflight = true the cleanliness predicate fails for every configuration that forks.  The statement of C08
+   ("concurrently with spawns on other threads") is therefore NOT proved, and is violated by the real code
+   under that schedule (engine E2, scenario kind threads); see known_findings.txt. *)
+Theorem C08_no_overlap_in_sweep : forall c, In c (configs_full ++ configs_opts) -> c_inflight c = false.
+Proof. exact no_overlap_in_sweep. Qed.
+Print Assumptions C08_no_overlap_in_sweep.
+
+Theorem C08_F9_inflight_ends_leak :
+  forallb (fun c => invalid c || c_prep_fails c || negb (child_clean None (with_inflight c))) (configs_full ++ configs_opts) = true.
+Proof. exact inflight_ends_leak. Qed.
+Print Assumptions C08_F9_inflight_ends_leak.
+
 Example C08_nonvacuous :
   match o_child_out (run None exec_yes (mk RPipe RPipe RPipe true true true true false false 1)) with
   | Started t _ => length t = 4
